@@ -579,6 +579,16 @@ func cloneRules(rs []Rule) []Rule {
 func (g *gen) mutate(src string, cur []Rule, pool *[][]Tok) []Rule {
 	rs := cloneRules(cur)
 
+	// boundary versions: nothing but the last rule(s) dropped, and a version without any rule
+	switch g.rng.Intn(16) {
+	case 0:
+		if len(rs) > 1 {
+			return rs[:1+g.rng.Intn(len(rs)-1)]
+		}
+	case 1:
+		return []Rule{}
+	}
+
 	for k := 1 + g.rng.Intn(3); k > 0; k-- {
 		switch g.rng.Intn(7) {
 		case 6: // nothing but the backtracking setting: said explicitly (false) or left to the default rule again
@@ -712,7 +722,7 @@ func (g *gen) probes(sets map[string][]Rule, _ []Rule) []Req {
 		}
 	}
 
-	segVals := append([]string{"qux", ""}, g.lits...)
+	segVals := append([]string{"qux", "", "Foo"}, g.lits...) // capitals: values compare case-sensitively
 	seen := map[string]bool{}
 
 	var paths [][]string
@@ -764,6 +774,34 @@ func (g *gen) probes(sets map[string][]Rule, _ []Rule) []Req {
 			q := append([]string{}, p...)
 			q[g.rng.Intn(len(q))] = g.pick(segVals)
 			add(q)
+		}
+	}
+
+	// an exact path_params value spelled with other capitals is another value
+	for _, s := range srcs {
+		for _, r := range sets[s] {
+			for _, rt := range r.Routes {
+				for _, pm := range rt.Params {
+					if pm.Type != "exact" || strings.Contains(pm.Pat, "/") || !validExpr(rt.Expr) {
+						continue
+					}
+
+					var p []string
+
+					for _, t := range rt.Expr {
+						switch {
+						case t.T == "lit":
+							p = append(p, t.V)
+						case t.N == pm.Name:
+							p = append(p, strings.ToUpper(pm.Pat[:1])+pm.Pat[1:])
+						default:
+							p = append(p, "foo")
+						}
+					}
+
+					add(p)
+				}
+			}
 		}
 	}
 
